@@ -1609,7 +1609,29 @@ func (v *Verifier) execInstr(st *State, in ssa.Instruction) {
 		v.assumeTypeFacts(st, val)
 		st.regs[x] = Value{Tuple: []Value{{T: ok, Sort: "Bool", GoT: types.Typ[types.Bool]}, k, val}, GoT: x.Type()}
 	case *ssa.Select:
-		v.unsupportedf("select at %s", v.posOf(x))
+		// A select is an arbitrary choice among its cases (or none, when it has a default); received values are
+		// arbitrary values of the element type. Channel synchronisation itself is not modelled.
+		v.notes = append(v.notes, "select at "+v.posOf(x)+": modelled as an arbitrary choice among its cases with arbitrary received values; channel synchronisation is not modelled")
+		idx := v.freshValue(st, "select.idx", types.Typ[types.Int])
+		lo := 0
+		if !x.Blocking {
+			lo = -1
+		}
+		st.assume(and(fmt.Sprintf("(>= %s %d)", idx.T, lo), fmt.Sprintf("(< %s %d)", idx.T, len(x.States))))
+		okc := v.env.ctx.freshConst("select.ok", "Bool")
+		tup := []Value{idx, {T: okc, Sort: "Bool", GoT: types.Typ[types.Bool]}}
+		for _, sc := range x.States {
+			if sc.Dir == types.RecvOnly {
+				ct, _ := sc.Chan.Type().Underlying().(*types.Chan)
+				if ct == nil {
+					v.unsupportedf("select on a non-channel at %s", v.posOf(x))
+				}
+				rv := v.freshValue(st, "select.recv", ct.Elem())
+				v.assumeTypeFacts(st, rv)
+				tup = append(tup, rv)
+			}
+		}
+		st.regs[x] = Value{Tuple: tup, GoT: x.Type()}
 	default:
 		v.unsupportedf("instruction %T at %s", in, v.posOf(in))
 	}
